@@ -152,18 +152,6 @@ Proof. unfold is_verdict. apply val_eqb_refl. Qed.
 Lemma b_vbool x : b (match vbool x with VZ z => z | _ => 0 end) = x.
 Proof. destruct x; reflexivity. Qed.
 
-Lemma prop_of_model_jwt auth mal alg cl now ks extra c keys :
-  dec_claims cl = Some c -> dec_keys ks = Some keys ->
-  let i := VL [VZ 2; VB auth; VZ mal; VZ alg; cl; VZ now; ks; extra] in
-  kf_C51 i = 0 -> prop_C51 i (run_C51 i) = true.
-Proof.
-  intros Hc Hk. cbn [prop_C51 run_C51 kf_C51]. rewrite Hc, Hk.
-  pose proof (jwt_valid_accepted auth (b mal) alg c now keys) as Hva.
-  destruct (jwt_valid auth (b mal) alg c now keys) eqn:Ev.
-  - rewrite (Hva eq_refl). intros _. apply is_verdict_refl.
-  - destruct (jwt_accept auth (b mal) alg c now keys); cbn [negb andb]; [discriminate|]. intros _. apply is_verdict_refl.
-Qed.
-
 Lemma secure_link_range he expires checksum digest now :
   0 <= secure_link he expires checksum digest now <= 5.
 Proof.
@@ -173,19 +161,6 @@ Proof.
     destruct checksum; [lia|]. destruct (bytes_eqb (b64url digest) (z :: checksum)); lia.
   - cbn [negb Z.eqb]. destruct checksum; [lia|]. destruct (bytes_eqb (b64url digest) (z :: checksum)); lia.
 Qed.
-Lemma prop_of_model_link he expires checksum digest now e1 e2 e3 :
-  let i := VL [VZ 3; VZ he; VB expires; VB checksum; VB digest; VZ now; e1; e2; e3] in prop_C51 i (run_C51 i) = true.
-Proof.
-  cbn [prop_C51 run_C51].
-  pose proof (secure_link_range (b he) expires checksum digest now) as Hr.
-  pose proof (securelink_iff (b he) expires checksum digest now) as Hi.
-  destruct (secure_link (b he) expires checksum digest now =? 0) eqn:E.
-  - apply Z.eqb_eq in E. rewrite (proj1 Hi E). cbn [Bool.eqb andb]. rewrite E. reflexivity.
-  - destruct (link_valid (b he) expires checksum digest now) eqn:EL.
-    + apply Z.eqb_neq in E. exfalso. apply E. apply Hi. reflexivity.
-    + cbn [Bool.eqb andb]. apply andb_true_iff. split; apply Z.leb_le; lia.
-Qed.
-
 Lemma uniq_lookup users : uniq_users users = true -> forall u,
   existsb (fun e => bytes_eqb (fst e) u && snd e) users = match lookup_user users u with Some ok => ok | None => false end.
 Proof.
@@ -200,21 +175,41 @@ Proof.
     rewrite Hnone. reflexivity.
   - cbn [andb orb]. apply IH. exact Hr.
 Qed.
-Lemma prop_of_model_basic auth dok dec us users :
-  dec_users us = Some users ->
-  let i := VL [VZ 1; VB auth; VZ dok; VB dec; us] in prop_C51 i (run_C51 i) = true.
+Lemma basic_valid_accept auth decoded users : uniq_users users = true ->
+  basic_valid auth decoded users = basic_accept auth decoded users.
 Proof.
-  intros Hu. cbn [prop_C51 run_C51]. rewrite Hu. destruct (uniq_users users) eqn:EU; [|reflexivity]. cbn [negb orb].
-  assert (H : basic_valid auth (if b dok then Some dec else None) users = basic_accept auth (if b dok then Some dec else None) users).
-  { unfold basic_valid, basic_accept. destruct (basic_user auth (if b dok then Some dec else None)); [|reflexivity].
-    apply uniq_lookup. exact EU. }
-  rewrite H. apply is_verdict_refl.
+  intros EU. unfold basic_valid, basic_accept. destruct (basic_user auth decoded); [|reflexivity].
+  apply uniq_lookup. exact EU.
 Qed.
-Lemma prop_of_model_block inT hg g hp p e1 e2 g' p' :
-  dec_rules hg g = Some g' -> dec_rules hp p = Some p' ->
-  let i := VL [VZ 4; VZ inT; VZ hg; g; VZ hp; p; e1; e2] in prop_C51 i (run_C51 i) = true.
+
+(* central theorem on typed operations *)
+Theorem prop_op_of_model : forall x, wf_op x = true -> kf_op x = 0 -> prop_op x (run_op x) = true.
 Proof.
-  intros Hg Hp. cbn [prop_C51 run_C51]. rewrite Hg, Hp.
-  destruct (block_refuses g' p') as [_ H]. rewrite <- H. unfold global_block.
-  destruct (b inT); destruct (product_block g' p'); reflexivity.
+  intros [auth decoded users route|auth mal alg c now keys route|he expires checksum digest now|inT g p] Hwf Hkf;
+    cbn [prop_op run_op wf_op kf_op] in *.
+  - rewrite (basic_valid_accept auth decoded users Hwf). apply is_verdict_refl.
+  - destruct (covered route); cbn [negb orb andb] in *; [|apply is_verdict_refl].
+    pose proof (jwt_valid_accepted auth mal alg c now keys) as Hva.
+    destruct (jwt_valid auth mal alg c now keys) eqn:Ev.
+    + rewrite (Hva eq_refl). apply is_verdict_refl.
+    + destruct (jwt_accept auth mal alg c now keys); cbn [negb andb] in Hkf; [discriminate|]. apply is_verdict_refl.
+  - pose proof (secure_link_range he expires checksum digest now) as Hr.
+    pose proof (securelink_iff he expires checksum digest now) as Hi.
+    destruct (secure_link he expires checksum digest now =? 0) eqn:E.
+    + apply Z.eqb_eq in E. rewrite (proj1 Hi E). cbn [Bool.eqb andb]. rewrite E. reflexivity.
+    + destruct (link_valid he expires checksum digest now) eqn:EL.
+      * apply Z.eqb_neq in E. exfalso. apply E. apply Hi. reflexivity.
+      * cbn [Bool.eqb andb]. apply andb_true_iff. split; apply Z.leb_le; lia.
+  - destruct (block_refuses g p) as [_ H]. rewrite <- H. unfold global_block.
+    destruct inT; destruct (product_block g p); reflexivity.
 Qed.
+Theorem prop_C51_of_model : forall i, wf_C51 i = true -> kf_C51 i = 0 -> prop_C51 i (run_C51 i) = true.
+Proof.
+  intros i. unfold wf_C51, kf_C51, prop_C51, run_C51. destruct (dec_C51 i) as [x|]; [|discriminate].
+  apply prop_op_of_model.
+Qed.
+
+Lemma C51_wf_example_lemma :
+  let i := VL [VZ 3; VZ 0; VB []; VB (firstn 21 (b64url (repeat 7 16))); VB (repeat 7 16); VZ 0; VB []; VB []; VB []; VZ 0] in
+  wf_C51 i = true /\ kf_C51 i = 0 /\ run_C51 i = VZ 4.
+Proof. vm_compute. auto. Qed.
